@@ -265,8 +265,9 @@ def outcome_of(out: dict) -> dict:
 # ------------------------------------------------------------------------------------------------
 # TLC
 # ------------------------------------------------------------------------------------------------
-def enumerate_programs(ctx: Ctx, deep: bool) -> list[dict]:
-    cfg = f"SPECIFICATION Spec\nCONSTANT Deep = {'TRUE' if deep else 'FALSE'}\nCHECK_DEADLOCK FALSE\n"
+def enumerate_programs(ctx: Ctx, deep: bool, stride: int = 1, offset: int = 1) -> list[dict]:
+    cfg = (f"SPECIFICATION Spec\nCONSTANT Deep = {'TRUE' if deep else 'FALSE'}\nCONSTANT Stride = {stride}\n"
+           f"CONSTANT Offset = {offset}\nCHECK_DEADLOCK FALSE\n")
     res = run_tlc("eval/Eval_Gen.tla", cfg, ctx.scratch, workers=1, timeout=1500, heap="6g")
     if res.error:
         raise MachineryError(f"Eval_Gen failed: {res.error}\n{res.out[-2000:]}")
